@@ -340,7 +340,8 @@ class SgzConverter(SgzReader):
                 self._set_variant_header_padding(False)
                 self.read_variant_headers()
                 # Doing this is fine now there is decent caching on the loader
-                segyfile.trace = [self.get_trace(i) for i in range(self.tracecount)]
+                # segyio converts what it is given to the file's sample format in place: hand it copies, not views of cached chunks
+                segyfile.trace = [self.get_trace(i).copy() for i in range(self.tracecount)]
                 segyfile.header = [self.regenerate_trace_header(i) for i in range(self.tracecount)]
 
         with open(out_file, "r+b") as f:
